@@ -47,6 +47,18 @@ def parseCfg (t : String) : Option Cfg :=
 def parseZ (t : String) : Option (Option Nat) :=
   if t == "-" then some none else t.toNat?.map some
 
+def parseSendEv (t : String) : Option SendEv :=
+  if t == "t" then some .timeout else if t == "e" then some .eagain else if t == "x" then some .fail
+  else t.toNat?.map .accept
+
+/-- `-` or comma separated: k = send accepts min(k, len) bytes, t = socket.timeout, e = EAGAIN, x = other error -/
+def parseWSched (t : String) : Option (List SendEv) :=
+  if t == "-" then some [] else (t.splitOn ",").mapM parseSendEv
+
+def showW : WRes → String
+  | .ok w => toHexTok w ++ " ok"
+  | .eof w => toHexTok w ++ " eof"
+
 def showMsg (m : Msg) : String :=
   "ok " ++ toString m.cmd.toNat ++ " " ++ toHexTok m.payload ++ " " ++ toString m.seqno
 
@@ -55,6 +67,8 @@ def showMsg (m : Msg) : String :=
     reset
     cfgout <cfg> | cfgin <cfg> | zout <z|-> | zin <z|-> | seqout <n> | seqin <n> | kexout <0|1> | kexin <0|1>   → ok
     send <payloadhex> <rndhex>      → <wirehex> | err:<kind>            (sender)
+    sendw <payloadhex> <rndhex> <wsched> → <hex accepted by the socket> ok|eof | err:<kind>
+                                      (sender; `write_all` under a schedule of send() outcomes, see parseWSched)
     feed <hex> | rem <hex>          → ok                                (bytes that will arrive | `__remainder`)
     read <sched>                    → ok <cmd> <payloadhex> <seqno> <retries> | err:<kind>
                                       (`read_message`, called again after each NeedRekeyException as Transport.run does)
@@ -129,6 +143,13 @@ def driverStep (st : DSt) (line : String) : DSt × String :=
       | .ok o => ({ st with s := o.st }, toHexTok o.wire)
       | .error e => (st, "err:" ++ errName e)
     | _, _ => (st, "bad-op")
+  | ["sendw", pl, rnd, ws] =>
+    match ofHex? pl, ofHex? rnd, parseWSched ws with
+    | some pl, some rnd, some ws =>
+      match sendMessage st.s pl rnd with
+      | .ok o => ({ st with s := o.st }, showW (writeAll ws o.wire 0 []))
+      | .error e => (st, "err:" ++ errName e)
+    | _, _, _ => (st, "bad-op")
   | ["feed", h] =>
     match ofHex? h with
     | some b => ({ st with data := st.data ++ b }, "ok")
